@@ -214,6 +214,14 @@ pub struct FrameQueue {
     rate_limited: bool,
 }
 
+#[cfg(feature = "uflow_verif")]
+impl FrameQueue {
+    /// (acked, nonce, rate_limited) of a frame that is still in the sent-frame log
+    pub fn verif_sent_frame(&self, frame_id: u32) -> Option<(bool, bool, bool)> {
+        self.frame_log.get_frame(frame_id).map(|entry| (entry.acked, entry.nonce, entry.rate_limited))
+    }
+}
+
 impl FrameQueue {
     pub fn new(size: u32, tail_size: u32, base_id: u32) -> Self {
         Self {
